@@ -25,15 +25,44 @@ RULE = ('four streams. re: every string of <= 5 (thorough: 6) tokens over {" ", 
         'relatively. Each load: process_includes(lines, filename) vs the extracted model on the same file-system view, and '
         'the extracted Spec-only monitor holds_C20 on (cart code, directory content, file.from_file(cart).lua.to_lines()) '
         'and on the raw process_includes output. distinct+non-trivial = distinct (host lines, names) with >= 1 include line')
-CLAIM = dict(text='(set below)', note='', technique='', design_ref='8 C20')
-ASSUMPTIONS = []
-PARTIAL = ''
-TRUSTED = ['the cart readers P8Formatter/P8PNGFormatter.from_file(do_includes=False) supply "the Lua code of the cart" '
-           '(properties C03/C04/C06 are about them); .p8.png fixtures are produced with the real writer and checked to '
-           'read back to the text they were made from']
+CLAIM = dict(
+    text=("Theorems (Coq, closed under the global context), about the model of p8.py's include machinery after one "
+          "`fix:` commit (findings/known_C20.json): C20_splice / C20_splice_complete (the result is the in-order "
+          "concatenation of what each line expands to), C20_expand (a non-include line expands to itself; an include "
+          "line to the - selected - lines of its target, each given its newline and not examined again, so nested "
+          "includes are not expanded), C20_tab (NAME:n is the n-th segment between -->8 lines, empty beyond the last; "
+          "no selector keeps everything), C20_missing / C20_error / C20_no_filename (a target that is not a file fails "
+          "the load with P8IncludeNotFound/OutsideOfAllowedDirectory; any failing expansion fails the load), "
+          "C20_recogniser (INCLUDE_LINE_RE, modelled as a backtracking scanner, reads every line the description "
+          "defines exactly as the description does), C20_file_lines, and the refinement C20_in_place: for every cart, "
+          "every directory content and every consistent file-system view, whenever the reference splice of "
+          "Spec/SpliceSpec.v is defined the model's code text has exactly the reference lines (no host line merged "
+          "with an included one, with or without final newline) and fails when a file is missing; C20_model_holds "
+          "(the monitor's predicate holds of the model). C20_glue_variant_refuted: with `yield line` (the code "
+          "before the fix) the statement is false (vm_compute witness x=1 / a=bc=d). Tie: regex sources + the way "
+          "they are applied, the shape of the two yield sites and of the containment tests are regenerated and "
+          "pinned; match_include_line vs re on every string of <= 5 (6) tokens + mutations; lines_for_tab, file "
+          "iteration, process_includes on real directory trees vs the extracted model; the Spec-only monitor on "
+          "file.from_file(cart).lua.to_lines() and on the raw process_includes output; the Spec's recogniser is "
+          "also compared with the regex directly."),
+    note=("Trusted: Coq kernel+VM, extraction, OCaml glue; the cart readers (do_includes=False) as the source of 'the "
+          "Lua code of the cart' and the lexer's echo of the spliced code (C03/C04/C06/C07 are about them); the "
+          "description-derived Spec (text lines cut at \\n; the directive grammar `#include NAME[:n]`; tabs separated by "
+          "lines equal to -->8). No claim (Spec undefined) for: malformed directives, a selector on a .lua file, "
+          "absolute or ..-names (C12's subject), selecting a tab of a cart that has a longer line starting with -->8. "
+          "view_ok (the hypothesis of C20_in_place: reader chunks are single lines) is checked for every cart of "
+          "the sandbox on each run."),
+    technique='Coq refinement proof (regex scanner + splice vs a reference splice) + regenerated shapes + extracted-model correspondence + extracted monitor',
+    design_ref='8 C20')
+ASSUMPTIONS = ['lines of the including cart reach process_includes newline-terminated (the .p8 reader guarantees it)',
+               'C20_in_place assumes view_ok: named text files are read as their bytes and a named cart\'s reader chunks are '
+               'the single lines of its code (a chunk with an embedded newline, i.e. a multi-line string or comment, is '
+               'outside the theorem; the monitor still checks such loads)']
+PARTIAL = ('what the cart readers return for a .p8 / .p8.png file is taken from the implementation (other properties); '
+           'carts whose code has multi-line tokens are covered by the monitor and the correspondence only')
 CASE_TIMEOUT = 120
 
-SB = {'root': None, 'view': None, 'content': None}
+SB = {'root': None, 'view': None, 'content': None, 'view_ok': None}
 
 # ---------------------------------------------------------------- the target pool
 PAD = b'-- fixture fixture fixture fixture fixture fixture fixture fixture fixture\n'
@@ -106,12 +135,13 @@ def sandbox():
     os.makedirs(os.path.join(S, 'home'), exist_ok=True)
     SB['root'], SB['content'] = S, content
     SB['view'] = None
+    SB['view_ok'] = []
     return S
 
 
 def cleanup():
     fsobs.rm_sandbox(SB['root'])
-    SB['root'] = SB['view'] = SB['content'] = None
+    SB['root'] = SB['view'] = SB['content'] = SB['view_ok'] = None
 
 
 def fs_view(S):
@@ -133,6 +163,14 @@ def fs_view(S):
                         with open(full, 'rb') as fh, fsobs.quiet():
                             ls = list(cls.from_file(fh, filename=full, do_includes=False).lua.to_lines())
                         carts.append((full, ls))
+                        rel = os.path.relpath(full, os.path.join(S, 'c'))
+                        if rel in SB['content']:
+                            code = SB['content'][rel][1]
+                            tl = code.split(b'\n')
+                            if tl and tl[-1] == b'':
+                                tl.pop()
+                            ok = all(b'\n' not in x[:-1] for x in ls) and [x[:-1] if x.endswith(b'\n') else x for x in ls] == tl
+                            SB['view_ok'].append((rel, ok))
                     except Exception:  # noqa
                         pass
         SB['view'] = (files, carts)
@@ -178,7 +216,7 @@ def include_line(rng, name, sel):
     lead = rng.choice(['', '', ' ', '\t', '  '])
     mid = rng.choice([' ', ' ', '  ', '\t'])
     trail = rng.choice(['', '', ' ', '\t '])
-    pre = rng.choice(['', '', '', './', 'sub/../'] if not name.startswith('sub/') else ['', '', './'])
+    pre = rng.choice(['', '', '', '', '', './', './', 'sub/../'] if not name.startswith('sub/') else ['', '', './'])
     return lead + '#include' + mid + pre + name + ('' if sel is None else ':%d' % sel) + trail
 
 
@@ -496,6 +534,12 @@ def run_cases(cases, ctx):
                         reqs.append('judge' + r[5:])
             for a in lib.run_driver_parallel(ctx['monitor_exe'], reqs):
                 judged[a] = judged.get(a, 0) + 1
+            vk = SB.get('view_ok') or []
+            res['histogram']['view_ok:carts'] = sum(1 for _, ok in vk if ok)
+            for rel, ok in vk:
+                if not ok:
+                    res['disagreements'].append({'case': {'kind': 'view', 'cart': rel}, 'summary': 'view_ok',
+                                                 'difference': 'reader chunks of %s are not the lines of its code' % rel})
             res['histogram']['spec:undefined'] = judged.get('0', 0)
             res['histogram']['spec:holds'] = judged.get('1', 0)
             for c in cases:
